@@ -1,6 +1,7 @@
 import GixModel.Lemmas.C47TopoFinal
 import GixModel.Lemmas.C47SimpleGen
 import GixModel.Lemmas.C47OrderFinal
+import GixModel.Lemmas.C47BridgeTable
 /-
 C47 — Commit walks agree with git rev-list.  PROPERTY THEOREMS ONLY.
 
@@ -312,16 +313,35 @@ example : DateMaxFirst { g := C47.sampleDag, qg := selectPQ GenTime.le, qd := se
 
 example : gitTopoOrder2 C47.sampleDag 5 [3, 4] [1] true = [3, 4, 2] := by decide +kernel
 
-/-- NOT PROVED (stated for the record, see the config's level_note): the same equation for the
-OTHER transcription of git's sort, `Spec.C47.gitTopoOrder`, which keeps git's in-degree counters in
-arrays, a sorted-list date queue and its own ancestor tables. What is missing is the purely
-specification-side equation `gitTopoOrder = gitTopoOrder2` on closed histories (no model involved):
-a counter drops to 1 exactly when the last selected child is shown. Both transcriptions are
-validated against the sequences the git binary prints (`gitorder` / `gitorder2` operations). -/
-def C47_order_full : Prop :=
+/-- The two executable transcriptions of git's `sort_in_topological_order` agree on every closed
+history with duplicate-free parent lists: `gitTopoOrder` (git's in-degree counters in an array, a
+date queue kept as a sorted list, the start commits sorted newest first, ancestor tables computed
+by a depth-first search) and `gitTopoOrder2` (Kahn's algorithm with the `ready` test, a select-max
+queue, the verified selection `selOf`). A counter is 1 + the number of selected children not yet
+shown, so it drops to 1 exactly when the last selected child is shown. -/
+theorem git_sort_transcriptions_agree (g : Dag) (n : Nat) (tips hidden : List Nat) (dateOrder : Bool)
+    (hcl : Closed g (List.range n)) (hnd : ∀ c, (g.parents c).Nodup)
+    (htips : ∀ t, t ∈ tips → t ∈ List.range n) (hhid : ∀ t, t ∈ hidden → t ∈ List.range n) :
+    gitTopoOrder g n tips hidden dateOrder = gitTopoOrder2 g n tips hidden dateOrder :=
+  gitTopoOrder_eq g n tips hidden dateOrder hcl hnd htips hhid
+
+/-- `order_eq_git`, full statement (round 3: now a theorem; until round 2 it was kept as
+`def C47_order_full : Prop`): the SEQUENCE of a walk over all parents — `Sorting::DateOrder` and
+`Sorting::TopoOrder`, with or without ends — is the one git's sort produces, `Spec.C47.gitTopoOrder`,
+the transcription of `sort_in_topological_order` with git's counters and queue disciplines which the
+harness validates against the sequences the git binary prints (`gitorder` operations). In
+particular the sequence does not depend on the generation numbers (commit-graph present, partial or
+absent) nor on how the heaps break ties. -/
+theorem C47_order_full :
   ∀ (E : TopoEnv) (nodes tips ends : List Nat) (n : Nat),
     TCtx E nodes tips ends → DateMaxFirst E → nodes = List.range n → E.cfg.firstParent = false →
     topoWalk E n tips ends
-      = .ok (gitTopoOrder E.g n tips ends (E.cfg.sorting == TopoSorting.dateOrder))
+      = .ok (gitTopoOrder E.g n tips ends (E.cfg.sorting == TopoSorting.dateOrder)) := by
+  intro E nodes tips ends n ctx hmax hn hall
+  subst hn
+  rw [gitTopoOrder_eq E.g n tips ends _ ctx.closed ctx.parents_nodup ctx.tips_nodes ctx.ends_nodes]
+  exact topo_order_eq_git ctx hall hmax
+
+example : gitTopoOrder C47.sampleDag 5 [3, 4] [1] true = [3, 4, 2] := by decide +kernel
 
 end GixModel.Props.C47
